@@ -12,7 +12,9 @@ every other form the rule checked here is:
 usage: drv_forms.py <out.json>       (PYTHONPATH=<repo>/src)
 """
 import itertools
+import copy
 import json
+import pickle
 import operator
 import sys
 from datetime import date
@@ -163,6 +165,11 @@ def indexing(F, mon):
     return ex
 
 
+def _same_items(container, items):
+    """the container still holds exactly these objects (identity: an item may be a vector, which has no truth value)"""
+    return len(container) == len(items) and all(a is b for a, b in zip(container, items))
+
+
 def relational(F, mon):
     """C12-C14 (and names, C18): key / value columns named by stored name, by vector, by the table's own column object,
     by accessor spelling, singly or in a list / tuple"""
@@ -304,6 +311,58 @@ def relational(F, mon):
         for w, v in views.items():
             if ref_w in views and not views_equal(v, views[ref_w]):
                 F.add("form_join", {"call": m, "expect": w, "compared with expect": ref_w}, v, views[ref_w])
+    # key CONTAINERS are arguments like any other: one list object handed over for both sides, a list reused for a second join
+    # on other tables, lists against tuples - the join is the one obtained with fresh containers, and the caller's lists keep
+    # their items
+    def ta():
+        return Table({"k": [1, 2, 2, 4], "g": ["x", "y", "x", "y"], "v": [10, 20, 30, 40]})
+
+    def tb():
+        return Table({"k": [2, 4, 4, 5, 1, 7], "g": ["x", "y", "y", "x", "x", "y"], "z": [1, 2, 3, 4, 5, 6]})
+
+    def tc():
+        return Table({"k": [7, 5, 5], "g": ["y", "x", "x"], "q": [0.5, 1.5, 2.5]})
+    for m in ("inner_join", "join", "full_join"):
+        for keys in (["k"], ["k", "g"]):
+            for wrap_name, wrap in (("list", list), ("tuple", tuple)):
+                st0, r0, e0 = attempt(lambda: getattr(ta(), m)(tb(), wrap(keys), wrap(keys), expect="many_to_many"))
+                st1, r1, e1 = attempt(lambda: getattr(tb(), m)(tc(), wrap(keys), wrap(keys), expect="many_to_many"))
+                if st0 != "ok" or st1 != "ok":
+                    continue
+                on = wrap(keys)
+                st, r, e = attempt(lambda: getattr(ta(), m)(tb(), on, on, expect="many_to_many"))
+                ex += 1
+                case = {"call": m, "keys": keys, "container": wrap_name, "how": "the same container object for left_on and right_on"}
+                if st != "ok" or not views_equal(table_view(r), table_view(r0)):
+                    F.add("form_join", case, view(r) if st == "ok" else type(e).__name__ + ": " + str(e)[:80], view(r0))
+                if not _same_items(on, keys):
+                    F.add("operands_unchanged", case, [type(x).__name__ for x in on], keys)
+                # ... and once more, on other tables, with the containers of the first call
+                lo, ro = wrap(keys), wrap(keys)
+                attempt(lambda: getattr(ta(), m)(tb(), lo, ro, expect="many_to_many"))
+                st, r, e = attempt(lambda: getattr(tb(), m)(tc(), lo, ro, expect="many_to_many"))
+                ex += 1
+                case = dict(case, how="containers used for an earlier join of other tables")
+                if st != "ok" or not views_equal(table_view(r), table_view(r1)):
+                    F.add("form_join", case, view(r) if st == "ok" else type(e).__name__ + ": " + str(e)[:80], view(r1))
+                if not _same_items(lo, keys) or not _same_items(ro, keys):
+                    F.add("operands_unchanged", case, [[type(x).__name__ for x in lo], [type(x).__name__ for x in ro]], [keys, keys])
+    # a table joined with ITSELF is joined with an equal table: the same rows as against a distinct copy, whether the two key
+    # sides name the same column or different ones (employee / boss)
+    def emp():
+        return Table({"id": [1, 2, 3, 4, 5], "boss": [None, 1, 1, 2, 9], "dept": ["a", "b", "a", "b", "a"], "name": ["r", "s", "t", "u", "w"]})
+    for m in ("inner_join", "join", "full_join"):
+        for lk, rk in (("boss", "id"), ("id", "boss"), ("id", "id"), ("dept", "dept"), (["dept", "boss"], ["dept", "id"])):
+            t = emp()
+            before = table_view(t)
+            st0, r0, e0 = attempt(lambda: getattr(emp(), m)(emp(), lk, rk, expect="many_to_many"))
+            st, r, e = attempt(lambda: getattr(t, m)(t, lk, rk, expect="many_to_many"))
+            ex += 1
+            case = {"call": m, "left_on": lk, "right_on": rk, "how": "t joined with t itself, against t joined with an equal table"}
+            if st != st0 or (st == "ok" and not views_equal(table_view(r), table_view(r0))):
+                F.add("form_join", case, view(r) if st == "ok" else type(e).__name__ + ": " + str(e)[:80], view(r0) if st0 == "ok" else type(e0).__name__)
+            if not views_equal(table_view(t), before):
+                F.add("operands_unchanged", case, table_view(t), before)
     return ex
 
 
@@ -477,6 +536,31 @@ def grid2d(F, mon):
                         F.add("rectangular", wcase, [len(col) for col in got], nr)
                     if t.column_names() != names:
                         F.add("names", wcase, t.column_names(), names)
+                # ---- write of a value that does NOT have the shape of the addressed region (a row / a column more or fewer, as
+                # lists and as a table): whether the library refuses it or takes it, the table keeps its rows and its rectangle,
+                # and a refusal changes nothing
+                if rs or cs or not rp or not cp or len(set(cp)) != len(cp) or len(set(rp)) != len(rp):
+                    continue
+                for mname, dr, dc in (("a row more", 1, 0), ("a row fewer", -1, 0), ("a column more", 0, 1), ("a column fewer", 0, -1), ("two rows more", 2, 0)):
+                    h, w = len(rp) + dr, len(cp) + dc
+                    if h < 1 or w < 1:
+                        continue
+                    vals = [[900 + 10 * jj + ii for ii in range(h)] for jj in range(w)]
+                    for vname in ("lists", "table"):
+                        t = Table({k: list(v) for k, v in cols0.items()})
+                        before = table_view(t)
+                        value = [list(v) for v in vals] if vname == "lists" else Table([Vector(list(v), name="src%d" % k) for k, v in enumerate(vals)])
+                        st, _, e = attempt(lambda: t.__setitem__((r, c), value))
+                        ex += 1
+                        wcase = dict(case, value=vname + " with " + mname)
+                        got = [list(col) for col in t.cols()]
+                        lens = {"len(t)": len(t), "shape": list(t.shape), "column lengths": [len(col) for col in got]}
+                        if len(t) != nr or list(t.shape) != [nr, nc] or any(len(col) != nr for col in got):
+                            F.add("rectangular", wcase, lens, {"len(t)": nr, "shape": [nr, nc], "column lengths": [nr] * nc})
+                        elif st != "ok" and not views_equal(table_view(t), before):
+                            F.add("grid_atomic", wcase, got, grid)
+                        elif st == "ok":
+                            F.skip("a value of another shape than the region was taken (" + mname + "); the table kept its rectangle")
     return ex
 
 
@@ -535,6 +619,14 @@ def held_views(F, mon):
         "t.a.sort_by()": (lambda t: t.a.sort_by(), lambda g: sorted(x for x in g["a"] if x is not None) + [x for x in g["a"] if x is None]),
         "t.a << []": (lambda t: t.a << [], lambda g: g["a"]),
         "t.a.T": (lambda t: t.a.T, lambda g: g["a"]),
+        # copies made by the standard library's protocols (where the library supports them at all): independent values too
+        "copy.copy(t)": (lambda t: copy.copy(t), lambda g: [g[k] for k in g]),
+        "copy.deepcopy(t)": (lambda t: copy.deepcopy(t), lambda g: [g[k] for k in g]),
+        "pickle round trip of t": (lambda t: pickle.loads(pickle.dumps(t)), lambda g: [g[k] for k in g]),
+        "copy.copy(t.a)": (lambda t: copy.copy(t.a), lambda g: g["a"]),
+        "copy.deepcopy(t.o)": (lambda t: copy.deepcopy(t.o), lambda g: g["o"]),
+        "pickle round trip of t.a": (lambda t: pickle.loads(pickle.dumps(t.a)), lambda g: g["a"]),
+        "copy.copy(t[1:])": (lambda t: copy.copy(t[1:]), lambda g: [g[k][1:] for k in g]),
     }
     writes = {
         "t[1, 'a'] = 99": (lambda t: t.__setitem__((1, "a"), 99), lambda g: g["a"].__setitem__(1, 99)),
